@@ -795,3 +795,30 @@ __wrap_close(int fd)
 	s->used = 0;
 	return (0);
 }
+
+
+/* The library's warnings may be switched to syslog mode (warnp_syslog): nothing leaves the process. */
+uint64_t vk_syslog_calls;
+
+void
+__wrap_syslog(int prio, const char * fmt, ...)
+{
+
+	(void)prio;
+	(void)fmt;
+	vk_syslog_calls++;
+}
+
+void
+__wrap_openlog(const char * ident, int opt, int fac)
+{
+
+	(void)ident;
+	(void)opt;
+	(void)fac;
+}
+
+void
+__wrap_closelog(void)
+{
+}
